@@ -555,6 +555,28 @@ def instance(P, S0, ev):
     return out
 
 
+def qualify(P, clause, ev):
+    """Known-finding key (DESIGN §5 #10): RandomWalkGenerator draws the first move of a start cell that has no free
+    neighbour from an all-zero probability vector. Recognised on the generator's own solved board: the start of
+    some agent has no 4-neighbour carrying that agent's codes."""
+    if clause not in ("random_walk_target_in_grid", "random_walk_solvable") or ev is None or P.env is None:
+        return ""
+    try:
+        import jax
+
+        sb = solved_board(P.env, jax.random.PRNGKey(int(ev.key_int)))
+        st = ev.S["agents.start"].astype(np.int64)
+        if sb is None:
+            return ""
+        for i in range(len(st)):
+            own = {(int(r), int(c)) for r, c in np.argwhere((sb[0] >= 1 + 3 * i) & (sb[0] <= 3 + 3 * i))}
+            if not any((int(st[i][0]) + dr, int(st[i][1]) + dc) in own for dr, dc in NBRS):
+                return "boxed-in start cell"
+    except Exception:
+        return ""
+    return ""
+
+
 # ------------------------------------------------------------------------------------------------ C11 / C12
 
 def other_end_reason(P, S_prev, a, S, ev):
